@@ -101,12 +101,35 @@ def materialise(src, faults, rng, out_base, nested=False):
                     if n.endswith("Metadata/Properties.plist") else d) for n, d in members]
     if "missing-plist" in kinds:
         members = [(n, d) for n, d in members if not n.endswith("Metadata/Properties.plist")]
+    if "missing-build-history" in kinds:
+        members = [(n, d) for n, d in members if not n.endswith("Metadata/BuildVersionHistory.plist")]
     if "encrypted" in kinds:
         members.append((".iwph", b"\x00" * 16))
     if "no-objects" in kinds:
         members = [(n, d) for n, d in members if not n.endswith(".iwa")]
     suffix = ".numberz" if "wrong-suffix" in kinds else ".numbers"
     path = out_base + suffix
+    if nested == "package":
+        # the folder form of a document: the archives in Index.zip, every other member a loose file (a wrapper folder is dropped)
+        import re
+        import shutil
+        if os.path.exists(path):
+            shutil.rmtree(path)
+        os.makedirs(path)
+        if "missing" in kinds:
+            shutil.rmtree(path)
+            return path + ".absent", None
+        with zipfile.ZipFile(os.path.join(path, "Index.zip"), "w", zipfile.ZIP_DEFLATED) as zi:
+            for n, d in members:
+                if n.endswith(".iwa"):
+                    zi.writestr(re.sub(r"^[^/]*\.numbers/", "", n), d)
+        for n, d in members:
+            if not n.endswith(".iwa") and not n.endswith("/"):
+                q = os.path.join(path, re.sub(r"^[^/]*\.numbers/", "", n))
+                os.makedirs(os.path.dirname(q), exist_ok=True)
+                with open(q, "wb") as fh:
+                    fh.write(d)
+        return path, None
     buf = io.BytesIO()
     with zipfile.ZipFile(buf, "w", zipfile.ZIP_DEFLATED) as zf:
         if nested:
